@@ -270,7 +270,7 @@ def run(ctx):
     ctx.prove(extra=["RefBfsRun"])
     check_t5(ctx)
     rows = load_rows(ctx)
-    exact_cap = ctx.budget(40000, 400000)
+    exact_cap = ctx.budget(25000, 400000)
     prefix_cap = ctx.budget(3000, 120000)
     naive_cap = ctx.budget(20000, 200000)
     cases, metas, costs = [], [], []
@@ -322,25 +322,46 @@ def run(ctx):
     if unknown:
         # a dataset row the check cannot interpret is a broken tie, never a silent skip
         raise TieBroken("dataset rows with no known denotation: " + ", ".join(unknown[:8]))
-    # balance the shards: deal the cases, most expensive first, into bins
-    nb = max(1, min(len(cases), common.NPROC * ctx.budget(2, 4)))
-    order_idx = sorted(range(len(cases)), key=lambda i: -costs[i])
-    bins = [[] for _ in range(nb)]
-    for j, i in enumerate(order_idx):
-        bins[j % nb if (j // nb) % 2 == 0 else nb - 1 - j % nb].append(i)
-    size = max(len(b) for b in bins)
-    flat, pad = [], None
-    for b in bins:
-        flat += b + [pad] * (size - len(b))
-    trivial = "{| gc_gens := RBPerm [[0]%nat]; gc_start := [0]%Z; gc_exact := true; gc_row := [1]%Z |}"
+    def evaluate(idxs, case_lits, cost_of, label):
+        """Kernel evaluation of check_growth_case on the selected cases, shards balanced by cost. Returns the failing indices."""
+        if not idxs:
+            return []
+        nb = max(1, min(len(idxs), common.NPROC * ctx.budget(2, 4)))
+        order_idx = sorted(idxs, key=lambda i: -cost_of[i])
+        bins = [[] for _ in range(nb)]
+        for j, i in enumerate(order_idx):
+            bins[j % nb if (j // nb) % 2 == 0 else nb - 1 - j % nb].append(i)
+        size = max(len(b) for b in bins)
+        flat = []
+        for b in bins:
+            flat += b + [None] * (size - len(b))
+        trivial = "{| gc_gens := RBPerm [[0]%nat]; gc_start := [0]%Z; gc_exact := true; gc_row := [1]%Z |}"
+        bad_ = ctx.coq_failing("Base Perm Matrix RefBfs RefBfsRun", "", "growth_case", [case_lits[i] if i is not None else trivial for i in flat],
+                               "check_growth_case", label, shard=size, timeout=ctx.budget(2400, 9000))
+        return [flat[i] for i in bad_ if flat[i] is not None]
+
     import time as _t
     _t0 = _t.time()
-    bad = ctx.coq_failing("Base Perm Matrix RefBfs RefBfsRun", "", "growth_case", [cases[i] if i is not None else trivial for i in flat],
-                          "check_growth_case", "growth", shard=size, timeout=ctx.budget(2400, 9000))
+    # phase 1, cheap screen of EVERY row: the first layers (at most ~600 states). A row that describes another graph fails here already,
+    # before the expensive whole-orbit run is attempted on a graph that may be far larger than the row claims
+    screen_lits, screen_cost = [], []
+    for (case, fns, start, sub, exact, row), lit in zip(metas, cases):
+        k, cum = 0, row[0]
+        while k + 1 < len(sub) and cum + sub[k + 1] <= 600:
+            k += 1
+            cum += sub[k]
+        k = max(k, min(1, len(sub) - 1))
+        head = lit[: lit.index("gc_exact :=")]
+        screen_lits.append(head + f"gc_exact := false; gc_row := {czl(sub[: k + 1])} |}}")
+        screen_cost.append(cum)
+    screened_out = evaluate(list(range(len(cases))), screen_lits, screen_cost, "screen")
+    ctx.cov["correspondence"]["rows_screened_by_prefix"] = len(cases)
+    # phase 2: the full decision (whole growth function, or the long prefix) for the rows that passed the screen
+    bad_full = evaluate([i for i in range(len(cases)) if i not in set(screened_out)], cases, costs, "growth")
     ctx.cov["timing_s"] = {"verified_bfs_in_coq": round(_t.time() - _t0, 1)}
     ctx.cov["disagreements_checked"] += len(cases)
     ctx.cov["correspondence"]["rows_decided_by_the_verified_bfs"] = len(cases)
-    failing = [flat[i] for i in bad if flat[i] is not None]
+    failing = sorted(set(screened_out) | set(bad_full))
     for i in failing:
         case, fns, start, sub, exact, row = metas[i]
         sizes, complete = naive_growth(fns, start, max(naive_cap, 2 * sum(sub)), len(sub) + 1)
